@@ -210,7 +210,7 @@ fn check_sized(c: &SizedCase, ctx: &Ctx) -> Outcome {
     }
 }
 
-const SIZED_RULE: &str = "generated tables written through the public API (k=17 64-bit / k=35 128-bit, 2-6 samples): the number of rows that survive the delete, or the number of rows before it, is one of 255,256,257,1023,1024,1025,2047,2048,2049,3072,4095,4096,4097,8192, and 1-59 rows have symbols only in the deleted samples (symbols: bases, 10% ambiguity codes incl. N, 20% gaps); ska delete -o through the CLI. Oracle: nk --full-info == model (drop columns, drop emptied rows). Every case non-trivial (rows disappear).";
+const SIZED_RULE: &str = "generated tables written through the public API (k=17 64-bit / k=35 128-bit, 2-6 samples): the number of rows that survive the delete, or the number of rows before it, is one of 255,256,257,1023,1024,1025,2047,2048,2049,3072,4095,4096,4097,8192,12288,65535,65536,65537, and 1-59 rows have symbols only in the deleted samples (symbols: bases, 10% ambiguity codes incl. N, 20% gaps); ska delete -o through the CLI. Oracle: nk --full-info == model (drop columns, drop emptied rows). Every case non-trivial (rows disappear).";
 
 fn stages(tier: Tier) -> Vec<Box<dyn Stage>> {
     vec![gen_stage_show("delete", RULE, tier.pick(2000, 24_000), 200, case_strategy, check, |c| {
